@@ -201,7 +201,7 @@ def run(tier):
     if broken and not report.violations:
         report.fail({"site": "proof", "kind": "obligation-broken"},
                     {"no_failing_input": True, "what_no_longer_checks": broken, "theorems": names_thm})
-    report.assumptions = ["molecule identity is Iso.same_molecule (constitution + tetrahedral parity; E/Z of fatty acyl double bonds is not compared)"]
+    report.assumptions = ["molecule identity is Iso.same_molecule (constitution + tetrahedral parity + cis/trans geometry of marked double bonds)"]
     extra = {"rule": "trees with at least one branching residue (up to four substituents, on root and non-root residues, ketose and N-linked parents); for each, all permutations of the substituents of one residue at a time (which includes the choice of the unbracketed main chain); distinct pairs of writings",
              "pairs": n_pairs, "pairs_full_false_partial": n_partial, "print_assumptions": res.assumptions.get(f"Props/{PROP}.v", "").strip().splitlines()[-3:],
              "partial": "whole-tree permutation invariance is decided per input; proved: atom-level commutation of two condensations"}
